@@ -7,8 +7,8 @@
 //
 // For every input the driver does what a network function does: nas.Message.PlainNasDecode, then the real converters
 // and getters ON THE DECODED OBJECTS (the binding table `bound` mirrors RxBound of spec/ReceivedMessage.tla).  Every
-// reading is taken TWICE; between the two readings a second, different message of the same type is decoded into another
-// nas.Message and read as well, and the input buffer of the first message is overwritten.  A payload container is
+// reading is taken TWICE; before the first and between the two readings a second, different message of the same type is
+// decoded into another nas.Message and read as well, and the input buffer of the first message is overwritten.  A payload container is
 // decoded as a message of its own FROM THE DECODED OBJECT after all that (event src "inner").
 // The driver takes no verdict about values: Trace_X03 recomputes Received(inp) and compares reading by reading.
 package main
@@ -713,6 +713,25 @@ var phase atomic.Value
 func receive(src string, id int, inp, alt []byte) result {
 	e := Ev{Op: "Recv", Src: src, ID: id, Inp: ints(inp), F: []Reading{}, G: []Reading{}, Want: none}
 	var res result
+	// before anything else another message of the same type is received and read: whatever the library keeps from it
+	// (caches, shared storage) must not show in the readings of this one
+	readOther := func() {
+		if len(alt) == 0 {
+			return
+		}
+		buf2 := append([]byte{}, alt...)
+		m2 := nas.NewMessage()
+		if pi := ev.Guard(func() {
+			if m2.PlainNasDecode(&buf2) == nil {
+				readAll(m2)
+			}
+		}); pi != nil && !pi.Lib {
+			ev.Fatal("harness panic while reading the second message: %s %s", pi.Fn, pi.Kind)
+		}
+		scribble(buf2)
+	}
+	phase.Store("alt")
+	readOther()
 	phase.Store("decode")
 	buf := append([]byte{}, inp...)
 	m := nas.NewMessage()
@@ -730,20 +749,9 @@ func receive(src string, id int, inp, alt []byte) result {
 	e.Msg = bodyName(m)
 	phase.Store("read")
 	e.F = readAll(m)
-	// a second, different message of the same type goes through the same code into another nas.Message
+	// the second, different message of the same type goes through the same code again, into another nas.Message
 	phase.Store("alt")
-	if len(alt) > 0 {
-		buf2 := append([]byte{}, alt...)
-		m2 := nas.NewMessage()
-		if pi := ev.Guard(func() {
-			if m2.PlainNasDecode(&buf2) == nil {
-				readAll(m2)
-			}
-		}); pi != nil && !pi.Lib {
-			ev.Fatal("harness panic while reading the second message: %s %s", pi.Fn, pi.Kind)
-		}
-		scribble(buf2)
-	}
+	readOther()
 	scribble(buf) // the receive buffer is reused by the transport
 	phase.Store("read2")
 	e.G = readAll(m)
@@ -760,10 +768,17 @@ func receive(src string, id int, inp, alt []byte) result {
 
 // guarded receive with a watchdog: a reading that does not return is a hang, and the process stops using that input
 func run(w *ev.Writer, src string, id int, inp, alt []byte, depth int) {
+	runWith(w, src, id, inp, alt, depth, nil)
+}
+
+func runWith(w *ev.Writer, src string, id int, inp, alt []byte, depth int, post func(*Ev)) {
 	done := make(chan result, 1)
 	go func() { done <- receive(src, id, inp, alt) }()
 	select {
 	case r := <-done:
+		if post != nil {
+			post(&r.e)
+		}
 		w.Emit(r.e)
 		if depth == 0 {
 			for _, in := range r.inner {
@@ -772,7 +787,11 @@ func run(w *ev.Writer, src string, id int, inp, alt []byte, depth int) {
 		}
 	case <-time.After(5 * time.Second):
 		ph, _ := phase.Load().(string)
-		w.Emit(Ev{Op: "Recv", Src: src, ID: id, Inp: ints(inp), Hang: true, Phase: ph, F: []Reading{}, G: []Reading{}, Want: none})
+		e := Ev{Op: "Recv", Src: src, ID: id, Inp: ints(inp), Hang: true, Phase: ph, F: []Reading{}, G: []Reading{}, Want: none}
+		if post != nil {
+			post(&e)
+		}
+		w.Emit(e)
 	}
 }
 
